@@ -81,6 +81,21 @@ func (e *connStatus) ReconnectsWithoutLock() uint64 {
 	return e.reconnects
 }
 
+// StartReconnectIfGeneration moves the status to Reconnecting on behalf of a caller whose request failed on
+// the connection of the given generation. If another reconnect has begun since (the failure is stale) the
+// status is left alone. It returns false only when the connection is closed.
+func (e *connStatus) StartReconnectIfGeneration(generation uint64) bool {
+	e.Lock()
+	defer e.Unlock()
+	if e.IsWithoutLock(connStatusClosed) {
+		return false
+	}
+	if e.reconnects == generation {
+		e.SwapWithoutLock(connStatusReconnecting)
+	}
+	return true
+}
+
 func (e *connStatus) SwapWithoutLock(state connStatusValue) (old connStatusValue) {
 	old = e.current
 	if state == connStatusReconnecting && old != connStatusReconnecting {
